@@ -6,7 +6,8 @@ import N0Verif.Props.C01
 
 Only property statements live here; the lemmas are in `Proofs/FindAll.lean` and
 `Proofs/FindAllDesc.lean`, the model in
-`Model/FindAll.lean` (it follows the code with `fixes/C19-a.patch` and `fixes/C19-b.patch` applied).
+`Model/FindAll.lean` (it follows the code with `fixes/C19-a.patch`, `fixes/C19-b.patch` and
+`fixes/C19-c.patch` applied).
 
 Reading.  The engine keeps two mutable default arguments.  The model threads the contents of the
 two objects a call receives in and out of every call (`Out.fl`, `Out.ps`), and the top-level entry
@@ -240,31 +241,30 @@ position of the current node": the list is the text of groups (a key and the int
 appended to it — negative ones as written, `last()-k` as the integer it evaluates to) that spell a
 walk from the root to the node, and every proper prefix of the list that is registered in the
 stack is registered with the node it leads to (what `'..'` relies on).  It is preserved by every
-branch of `_findall` other than the `text()` condition (`fad_step_ok`: name, `*` self check and
-descent, name on a list, integer index, `[*]` loop with its in-place updates, `'..'`), for every
-fuel, with the state threading of the model. -/
+branch of `_findall` (`fad_step_ok`: name, `*` self check and descent, name on a list, integer
+index, `[*]` loop with its in-place updates, `'..'`, `text()` condition — which since
+`fixes/C19-c.patch` only filters), for every fuel, with the state threading of the model. -/
 
-/-- **Every key spells the position of its value.**  For an expression without `text()` conditions
-every pair `(xp, v)` of the result has `xp = "//" ++ steps` for steps (plain keys, attached integer
-indexes) along which plain Python indexing from the root reaches `v`. -/
+/-- **Every key spells the position of its value.**  For every expression, every pair `(xp, v)` of
+the result has `xp = "//" ++ steps` for steps (plain keys, attached integer indexes) along which
+plain Python indexing from the root reaches `v`. -/
 theorem C19_keys_spell (cls : Cls) (kvs : List (Str × Val)) (e : Str) (hk : KeysOkV (.dict cls kvs))
-    (hnt : ∀ tok ∈ tokens e, ∀ eq v, classify tok ≠ .text eq v)
     (fuel : Nat) (f : Found) (h : (findallTop fuel fresh (.dict cls kvs) e).res = .ok (some f))
     (xp : Str) (v : Val) (hm : (xp, v) ∈ f) :
     ∃ steps, PlainSteps steps ∧ xp = renderSp .two steps ∧ stepsGet (.dict cls kvs) steps = some v := by
-  obtain ⟨gs, hp, hkey, hget⟩ := fad_findall_spells cls kvs hk e hnt fuel f h (xp, v) hm
+  obtain ⟨gs, hp, hkey, hget⟩ := fad_findall_spells cls kvs hk e fuel f h (xp, v) hm
   exact ⟨stepsOfG gs, fad_plainSteps gs hp, hkey.trans (fad_keyOf_renderSp gs hp), hget⟩
 
-/-- **Every key of every result without a `text()` step resolves through item access to the value
-found** (model of `n0dict.__getitem__`, C01 engine; `C01_spellings_string`), and the lookup leaves
-the tree as it is.  (`text()` keys: finding C19-c.) -/
+/-- **Every key of every result resolves through item access (and `get`) to the value found**
+(model of `n0dict.__getitem__`, C01 engine; `C01_spellings_string`), whatever the expression —
+names, `*`, indexes in every spelling, `[*]`, `'..'`, `text()` conditions — and the lookup leaves
+the tree as it is. -/
 theorem C19_resolves_all (cls : Cls) (kvs : List (Str × Val)) (e : Str) (hk : KeysOkV (.dict cls kvs))
-    (hnt : ∀ tok ∈ tokens e, ∀ eq v, classify tok ≠ .text eq v)
     (fuel : Nat) (f : Found) (h : (findallTop fuel fresh (.dict cls kvs) e).res = .ok (some f))
     (xp : Str) (v : Val) (hm : (xp, v) ∈ f) :
     ∃ n, ∀ fuel' ≥ n, getItem fuel' (.dict cls kvs) xp = (.dict cls kvs, .ok v) ∧
       ∀ d, get fuel' (.dict cls kvs) xp d = (.dict cls kvs, .ok v) := by
-  obtain ⟨steps, hp, rfl, hget⟩ := C19_keys_spell cls kvs e hk hnt fuel f h xp v hm
+  obtain ⟨steps, hp, rfl, hget⟩ := C19_keys_spell cls kvs e hk fuel f h xp v hm
   by_cases hne : steps = []
   · subst hne
     rw [fad_stepsGet_nil] at hget
@@ -283,13 +283,15 @@ def exTree : Val :=
              (['l'], .list .n0 [.dict .n0 [(['n'], .int 1)], .list .plain [.dict .plain [(['n'], .int 5)]]]),
              (['n'], .int 0)]
 
-/-- **C19-c (open finding).**  A `text()` condition is kept verbatim in the key; item access reads
-the same text as its own, case-sensitive condition, and does not find the value. -/
-theorem C19_text_key_cex :
+/-- **C19-c (fixed by `fixes/C19-c.patch`).**  A `text()` condition is no longer kept in the key:
+the witness of the former finding returns the xpath of the node, which item access resolves (the
+comparison of findall is case-insensitive, `<>` is an operator item access does not know). -/
+theorem C19_text_key_fixed :
     (findallTop 20 fresh exTree ['a', '/', 'k', '[', 't', 'e', 'x', 't', '(', ')', '=', 'v', ']']).res
-      = .ok (some [(['/', '/', 'a', '/', 'k', '[', 't', 'e', 'x', 't', '(', ')', '=', 'v', ']'], .str ['V'])]) ∧
-    (getItem 20 exTree ['/', '/', 'a', '/', 'k', '[', 't', 'e', 'x', 't', '(', ')', '=', 'v', ']']).2
-      = .error .IndexError := by decide
+      = .ok (some [(['/', '/', 'a', '/', 'k'], .str ['V'])]) ∧
+    (findallTop 20 fresh exTree ['a', '/', 'k', '[', 't', 'e', 'x', 't', '(', ')', '<', '>', 'w', ']']).res
+      = .ok (some [(['/', '/', 'a', '/', 'k'], .str ['V'])]) ∧
+    getItem 20 exTree ['/', '/', 'a', '/', 'k'] = (exTree, .ok (.str ['V'])) := by decide
 
 /-- outside the quantifier: a list of scalars under a wildcard raises -/
 theorem C19_scalar_in_list_cex :
@@ -343,22 +345,14 @@ example : descV ['n'] exTree = [([.key ['n']], .int 0), ([.key ['l'], .idx 0, .k
     ([.key ['l'], .idx 1, .idx 0, .key ['n']], .int 5)] := by
   simp [exTree, descV, descK, descL, lookup]
 -- `C19_keys_spell` / `C19_resolves_all`: negative index, `[*]` on a nested list, name, `'..'`
+-- (a `text()` condition followed by `'..'`: below; ending in a condition: `C19_text_key_fixed`)
 def exExpr : Str := ['l', '[', '-', '1', ']', '/', '[', '*', ']', '/', 'n', '/', '.', '.']
-example : ∀ tok ∈ tokens exExpr, ∀ eq v, classify tok ≠ .text eq v := by
-  have : tokens exExpr = [['l'], ['[', '-', '1', ']'], ['[', '*', ']'], ['n'], ['.', '.']] := by decide
-  rw [this]
-  intro tok ht eq v
-  simp only [List.mem_cons, List.not_mem_nil, or_false] at ht
-  rcases ht with rfl | rfl | rfl | rfl | rfl
-  · rw [show classify ['l'] = .name ['l'] by decide]; intro h; cases h
-  · rw [show classify ['[', '-', '1', ']'] = .idx (-1) by decide]; intro h; cases h
-  · rw [show classify ['[', '*', ']'] = .star by decide]; intro h; cases h
-  · rw [show classify ['n'] = .name ['n'] by decide]; intro h; cases h
-  · rw [show classify ['.', '.'] = .up by decide]; intro h; cases h
 example : (findallTop 20 fresh exTree exExpr).res
     = .ok (some [(['/', '/', 'l', '[', '-', '1', ']', '[', '0', ']'], .dict .plain [(['n'], .int 5)])]) := by decide
 example : getItem 20 exTree ['/', '/', 'l', '[', '-', '1', ']', '[', '0', ']']
     = (exTree, .ok (.dict .plain [(['n'], .int 5)])) := by decide
+example : (findallTop 20 fresh exTree ['a', '/', 'k', '[', 't', 'e', 'x', 't', '(', ')', '=', 'v', ']', '/', '.', '.', '/', 'b']).res
+    = .ok (some [(['/', '/', 'a', '/', 'b'], .dict .plain [(['c'], .int 1)])]) := by decide
 -- the hypothesis "no key twice" is needed: on an association list that repeats a key the second
 -- entry is visited by `*` and overwrites the pair of the first
 example : (findallTop 20 fresh (.dict .n0 [(['a'], .dict .n0 [(['n'], .int 1)]), (['a'], .dict .n0 [(['n'], .int 2)])])
